@@ -57,10 +57,34 @@ func (x *Exec) onStack(f *ssa.Function) bool {
 func (x *Exec) callStatic(bc *blockCtx, in ssa.Instruction, f *ssa.Function, binds []*Val, args []*Val) *Val {
 	saved := x.curArgs
 	x.curArgs = args
+	x.atCallObligations(bc, in, fnKey(f), args)
 	res := x.callStatic1(bc, in, f, binds, args)
 	x.curArgs = saved
 	x.publishSnapshot(bc, fnKey(f))
 	return res
+}
+
+// atCallObligations: `atcall <callee> <expr>` clauses of the function under contract.
+func (x *Exec) atCallObligations(bc *blockCtx, in ssa.Instruction, callee string, args []*Val) {
+	if x.rootC == nil || x.rootC.AtCall == nil || x.spec != 0 || bc.fr.depth != 0 {
+		return
+	}
+	cls := x.rootC.AtCall[callee]
+	for i, cl := range cls {
+		vars := map[string]*Val{}
+		for k, w := range bc.fr.params {
+			vars[k] = w
+		}
+		for j, a := range args {
+			vars[fmt.Sprintf("arg%d", j)] = a
+		}
+		ce := &CEnv{x: x, fr: bc.fr, st: bc.st, old: bc.fr.entry, vars: vars, lets: bc.fr.lets, guard: bc.reach, fc: bc.fr.fc, env: bc.env}
+		lab := fmt.Sprintf("#%d", i)
+		if cl.Label != "" {
+			lab = ":" + cl.Label
+		}
+		x.oblige("atcall", fmt.Sprintf("%satcall(%s)%s", bc.fr.prefix, shortFn(callee), lab), bc.reach, x.evalBool(ce, cl), posOf(in), cl.Text, false)
+	}
 }
 
 // publishSnapshot: `opt publishlast <callee>` on the function under contract names
